@@ -29,12 +29,14 @@ def err(code, msg=b"x"):
 
 
 def mk_case(content=b"", chunks=(), netascii=False, options=(), max_bs=65464, max_tmo=30, default_tmo=2,
-            retries=1, wrap=0, kind=("noreg",), events=()):
+            retries=1, wrap=0, kind=("noreg",), events=(), proc=0):
     """kind: ("noreg",) ChunkedStream without fileno | ("bytesio", prefix_len) | ("file", prefix_len) | ("pipe",)"""
     return {"content": bytes(content), "chunks": list(chunks), "netascii": bool(netascii),
             "options": [(str(a), str(b)) for a, b in options], "max_bs": max_bs, "max_tmo": max_tmo,
             "default_tmo": default_tmo, "retries": retries, "wrap": wrap, "kind": tuple(kind),
-            "events": [(int(t), int(a), bytes(d)) for (t, a, d) in events]}
+            "events": [(int(t), int(a), bytes(d)) for (t, a, d) in events],
+            # ticks the server needs to take one datagram off the socket (the fake clock advances by it)
+            "proc": int(proc)}
 
 
 def kind_sx(c):
@@ -51,11 +53,11 @@ def kind_sx(c):
     raise ValueError(k)
 
 
-def case_sx(c, variants=(0, 0, 0, 0, 0)):
+def case_sx(c, variants=(0, 0, 0, 0, 0, 0)):
     return [c["content"], c["chunks"], c["netascii"], [[a, b] for a, b in c["options"]],
             [c["max_bs"], c["max_tmo"], c["default_tmo"]], c["retries"],
             -1 if c["wrap"] is None else c["wrap"], kind_sx(c),
-            [[t, a, d] for (t, a, d) in c["events"]], list(variants)]
+            [[t, a, d] for (t, a, d) in c["events"]], c.get("proc", 0), (list(variants) + [0] * 6)[:6]]
 
 
 class _LoggedFile:
@@ -171,7 +173,7 @@ def run_impl(c, handler=None):
                                     mode="netascii" if c["netascii"] else "octet",
                                     default_timeout=c["default_tmo"], max_timeout=c["max_tmo"],
                                     max_retries=c["retries"], max_block_size=c["max_bs"], wrap=c["wrap"],
-                                    shared_log=loghook)
+                                    shared_log=loghook, proc=c.get("proc", 0))
     finally:
         for p in tmpfiles:
             try:
